@@ -78,6 +78,8 @@ class CallMixin:
             return self.lift_py_object(mod.py.__dict__[name], name)
         if name in ("True", "False", "None"):
             return lift({"True": True, "False": False, "None": None}[name])
+        if name == "__name__" and getattr(mod, "relpath", "").endswith(".py"):
+            return lift(mod.relpath[:-3].replace("/", "."))
         if hasattr(_bi, name):
             obj = getattr(_bi, name)
             if isinstance(obj, type) and issubclass(obj, BaseException):
@@ -376,6 +378,12 @@ class CallMixin:
             return self.induction_hypothesis(args[0], args[1:], fr, lineno)
         if name == "use":
             return self.use_lemma(args[0], args[1:], fr, lineno)
+        if name == "is_sorted":
+            lst = args[0]
+            if not (isinstance(lst, VList) and lst.elem is not None):
+                raise Unsupported("is_sorted(): needs a typed list")
+            ordered, _ = self.ordered_pred(lst.elem, kwargs.get("key", args[1] if len(args) > 1 else None), lineno)
+            return VBool(ordered(lst.term()))
         if name == "reveal":
             fv = args[0]
             app = self.call_opaque(fv.info, list(args[1:]), {})
@@ -708,7 +716,11 @@ class CallMixin:
         if c.raises:
             if "raises_when" in c.methods:
                 rw = truthy(self.spec_eval(c, "raises_when", vals))
-                if self.decide(rw):
+                if self.merge_depth > 0 and getattr(self, "binder_raises", None) is not None and not z3.is_false(simp(rw)) \
+                        and len(c.raises) == 1 and not c.modifies:
+                    # inside a comprehension body of the code under proof: lifted to any(...) by _comp_recfun
+                    self.binder_raises.append((simp(rw), c.raises[0]))
+                elif self.decide(rw):
                     for cls in c.raises[:-1]:  # several declared classes: any of them
                         b = z3.Const(fresh_name(f"raises.{cls}"), z3.BoolSort())
                         if self.decide(b):
@@ -940,7 +952,16 @@ class CallMixin:
         return self.eval(default, fr)
 
     def with_external(self, st, fr):
-        raise Unsupported(f"with-statement at line {st.lineno}")
+        """`with EXPR as NAME:` where EXPR yields an opaque resource whose type is declared a non-suppressing context
+        manager (`<Opaque type>.context_manager = True`, e.g. an open file): bind, run the body; __exit__ has no
+        modelled effect and does not swallow exceptions."""
+        for item in st.items:
+            v = self.eval(item.context_expr, fr)
+            if not (isinstance(v, VOpaque) and getattr(v.ty, "context_manager", False)):
+                raise Unsupported(f"with-statement at line {st.lineno}: {v} is not a declared context manager")
+            if item.optional_vars is not None:
+                self.assign_target(item.optional_vars, v, fr)
+        self.exec_block(st.body, fr)
 
     def elem_type_from_annotation(self, ann, fr):
         # list[str] / list[int] ; anything else: look in the contract's types under the variable name
@@ -1228,7 +1249,59 @@ class CallMixin:
         c = concrete_of(args[0])
         if c is not NOCONST and not kwargs:
             return lift(sorted(c))
+        lst = args[0]
+        if len(args) == 1 and isinstance(lst, VList) and lst.elem is not None and set(kwargs) <= {"key"}:
+            # TRUSTED external contract of sorted(xs, key=k): a sequence of the same length with the same members
+            # that is ordered by k. The result is an uninterpreted function of xs (same text => same term).
+            seq = lst.term()
+            ordered, keyid = self.ordered_pred(lst.elem, kwargs.get("key"), lineno)
+            fkey = ("sorted", lst.elem.name, keyid)
+            if fkey not in RECFUNS:
+                RECFUNS[fkey] = z3.Function(fresh_name("sorted"), seq.sort(), seq.sort())
+            r = RECFUNS[fkey](seq)
+            self.ufs_used.add("sorted(xs, key): trusted contract = same length, same members, ordered by key")
+            x = z3.Const(f"sx!{''.join(ch if ch.isalnum() else '_' for ch in lst.elem.name)}", lst.elem.sort())
+            self.assume(z3.Length(r) == z3.Length(seq))
+            self.assume(ordered(r))
+            if not __import__('os').environ.get('NOQ'): self.assume(z3.ForAll([x], z3.Contains(r, z3.Unit(x)) == z3.Contains(seq, z3.Unit(x)),
+                                  patterns=[z3.Contains(r, z3.Unit(x)), z3.Contains(seq, z3.Unit(x))]))
+            return VList(lst.elem, seq=r)
         raise Unsupported("sorted() of symbolic sequence (give the callee a contract)")
+
+    def ordered_pred(self, elem, keyfn, lineno=0):
+        """(RecFunction `s is ordered by key`, identity of the key) for sequences of `elem`; key: lambda without
+        captured variables returning an int, or None for sequences of ints."""
+        x = z3.Const(f"ox!{''.join(ch if ch.isalnum() else '_' for ch in elem.name)}", elem.sort())
+        if keyfn is None or isinstance(keyfn, VNone):
+            if elem is not Int:
+                raise Unsupported("sorted()/is_sorted() without key on a sequence of non-ints")
+            kt = x
+        else:
+            if not isinstance(keyfn, VFunc):
+                raise Unsupported("sorted()/is_sorted(): key must be a lambda")
+            self.merge_depth += 1
+            saved = len(self.run.ctx)
+            try:
+                kv = self.call_function(keyfn, [elem.wrap(x)], {}, None, lineno)
+            finally:
+                del self.run.ctx[saved:]
+                self.merge_depth -= 1
+            if not isinstance(kv, (VInt, VBool)):
+                raise Unsupported("sorted()/is_sorted(): only integer keys are modelled")
+            kt = simp(coerce(kv, Int).t)
+            from .ex_expr import _captured_subterms
+            if list(_captured_subterms(kt, x)):
+                raise Unsupported("sorted()/is_sorted(): key lambda captures variables")
+        keyid = kt.sexpr()
+        okey = ("ordered", elem.name, keyid)
+        if okey not in RECFUNS:
+            ssort = z3.SeqSort(elem.sort())
+            f = z3.RecFunction(fresh_name("ordered"), ssort, z3.BoolSort())
+            s = z3.Const("os!s", ssort)
+            z3.RecAddDefinition(f, [s], z3.Or(z3.Length(s) <= 1, z3.And(
+                z3.substitute(kt, (x, s[0])) <= z3.substitute(kt, (x, s[1])), f(z3.SubSeq(s, 1, z3.Length(s) - 1)))))
+            RECFUNS[okey] = f
+        return RECFUNS[okey], keyid
 
     def bi_print(self, args, kwargs, lineno):
         self.run.effects.append(("print", lineno))
